@@ -317,8 +317,8 @@ type Config struct {
 	QuotaDenyUsers []string
 	// QuotaPerUser limits the number of live allocations of a user (quota handler fed by events).
 	QuotaPerUser map[string]int
-	RelayIP4       net.IP
-	RelayIP6       net.IP
+	RelayIP4     net.IP
+	RelayIP6     net.IP
 	// NoEvents leaves the EventHandler empty.
 	NoEvents bool
 }
